@@ -182,7 +182,8 @@ impl List {
   /// which it will have just allocated
   fn ensure_capacity(&mut self, needed: usize, cap: usize, hooks: &GcHooks) -> List {
     if needed > cap {
-      self.grow(cap, cap * 2, hooks)
+      // doubling a list created with no capacity would not make any room
+      self.grow(cap, (cap * 2).max(needed), hooks)
     } else {
       *self
     }
